@@ -59,9 +59,15 @@ package delegation
 //@ // ---- C10: well-formedness ------------------------------------------------------------------------
 //@ pure func wfDlg(t *Token) bool = didDefined(t.issuer) && didDefined(t.audience) && len(t.nonce) >= 12
 //@
+//@ // ---- C07: what a token must satisfy to survive seal -> unseal: a command the decoder accepts, time bounds whose
+//@ // whole seconds lie in the safe integer range (the decoder rejects others)
+//@ pure func secOK(p *time.Time) bool = p == nil || (-9007199254740991 <= unixOf(*p) && unixOf(*p) <= 9007199254740991)
+//@ pure func sealable(t *Token) bool = validCmd(string(t.command)) && secOK(t.notBefore) && secOK(t.expiration)
 //@ func (*Token).validate
 //@   requires t != nil
-//@   ensures [C10] wf: (result == nil) == wfDlg(t)
+//@   ensures [C10] wf: result == nil ==> wfDlg(t)
+//@   ensures [C07] sealable: result == nil ==> sealable(t)
+//@   ensures [C10,C07] complete: wfDlg(t) && sealable(t) ==> result == nil
 //@   assigns [C20] nothing
 //@
 //@ pure func inSafeRange(p *int64) bool = p == nil || (-9007199254740991 <= *p && *p <= 9007199254740991)
@@ -75,16 +81,25 @@ package delegation
 //@   ensures [C10] times: result1 == nil ==> inSafeRange(m.Nbf) && inSafeRange(m.Exp)
 //@   ensures [C10] policyints: result1 == nil ==> intsInBounds(m.Pol)
 //@   ensures [C10] fields: result1 == nil ==> hasPrefix(m.Iss, "did:key:") && hasPrefix(m.Aud, "did:key:") && result0.nonce == m.Nonce
+//@   // C07: every field of the decoded token is the corresponding field of the model, read back
+//@   ensures [C07] principals: result1 == nil ==> result0.issuer == parsedDID(m.Iss) && result0.audience == parsedDID(m.Aud) && (m.Sub == nil ? result0.subject == did.Undef : result0.subject == parsedDID(*m.Sub))
+//@   ensures [C07] rest: result1 == nil ==> string(result0.command) == m.Cmd && result0.nonce == m.Nonce && (m.Meta != nil ==> result0.meta == m.Meta)
+//@   ensures [C07] times: result1 == nil ==> (m.Nbf == nil ? result0.notBefore == nil : (result0.notBefore != nil && inst(*result0.notBefore) == *m.Nbf * 1000000000)) && (m.Exp == nil ? result0.expiration == nil : (result0.expiration != nil && inst(*result0.expiration) == *m.Exp * 1000000000))
+//@   // ... and a model made of parseable identifiers, a valid command, a decodable policy, a nonce of 12 bytes or more and
+//@   // time bounds in the safe range is accepted
+//@   ensures [C07] accepts: parseOK(m.Iss) && parseOK(m.Aud) && (m.Sub == nil || parseOK(*m.Sub)) && validCmd(m.Cmd) && polDecErr(m.Pol) == nil && len(m.Nonce) >= 12 && inSafeRange(m.Nbf) && inSafeRange(m.Exp) ==> result1 == nil
 //@
 //@ func New
 //@   requires forall i int :: 0 <= i && i < len(opts) ==> opts[i] != nil
 //@   ensures [C10] wellformed: result1 == nil ==> result0 != nil && wfDlg(result0)
+//@   ensures [C07] sealable: result1 == nil ==> sealable(result0)
 //@   loop 0: invariant 0 <= k && k <= len(opts) && tkn != nil && fresh(tkn)
 //@           decreases len(opts) - k
 //@ func Root
 //@   requires forall i int :: 0 <= i && i < len(opts) ==> opts[i] != nil
 //@   assigns opts
 //@   ensures [C10] wellformed: result1 == nil ==> result0 != nil && wfDlg(result0)
+//@   ensures [C07] sealable: result1 == nil ==> sealable(result0)
 //@
 //@ // ---- C06: decoding verifies the envelope ------------------------------------------------------------
 //@ // assumption on bindnode (trusted): a model unwrapped from a conforming payload node has its required
@@ -127,11 +142,22 @@ package delegation
 //@ // ---- sealing: C08 (the CID is the content address of the sealed bytes) and C18 (streaming = buffered) ----
 //@ // sealedNode names the envelope node toIPLD builds for (token, key); toIPLD itself is trusted here
 //@ ghost func sealedNoded(t *Token, k crypto.PrivKey) datamodel.Node
+//@ // the model a token is sealed from: every field of the token, printed (identifiers, command), converted to whole seconds
+//@ // (time bounds) or carried over (policy node, nonce, metadata)
 //@ func (*Token).toIPLD
-//@   trusted
-//@   requires t != nil
-//@   ensures result1 == nil ==> result0 != nil && result0 == sealedNoded(t, privKey)
-//@   assigns nothing
+//@   requires t != nil && privKey != nil && t.meta != nil && wfDID(t.issuer) && polWF(t.policy)
+//@   assumes result1 == nil ==> result0 == sealedNoded(t, privKey)
+//@   ensures result1 == nil ==> result0 != nil
+//@   ensures [C07] model: result1 == nil ==> sealedModel(result0) is *tokenPayloadModel && sealedModel(result0).(*tokenPayloadModel) != nil && modelOf(sealedModel(result0).(*tokenPayloadModel), t)
+//@ pure func modelOf(m *tokenPayloadModel, t *Token) bool =
+//@     m.Iss == strOf(t.issuer) && m.Aud == strOf(t.audience) && (t.subject == did.Undef ? m.Sub == nil : (m.Sub != nil && *m.Sub == strOf(t.subject)))
+//@  && m.Cmd == string(t.command) && m.Nonce == t.nonce && (len(t.meta.Keys) == 0 ? m.Meta == nil : m.Meta == t.meta)
+//@  && (t.notBefore == nil ? m.Nbf == nil : (m.Nbf != nil && *m.Nbf == unixOf(*t.notBefore)))
+//@  && (t.expiration == nil ? m.Exp == nil : (m.Exp != nil && *m.Exp == unixOf(*t.expiration)))
+//@  && polShape(m.Pol, t.policy)
+//@ // statements of a token's policy are well-formed finite trees; the policy node has one tuple per statement with its operator
+//@ pure func polWF(p policy.Policy) bool = 0 <= stmtsSize(p) && (forall j int :: 0 <= j && j < len(p) ==> p[j] != nil && wfStmt(p[j]) && 0 <= stmtSize(p[j]) && stmtSize(p[j]) < stmtsSize(p))
+//@ pure func polShape(n datamodel.Node, p policy.Policy) bool = n != nil && nodeKind(n) == datamodel.Kind_List && listLen(n) == len(p) && (forall j int :: 0 <= j && j < len(p) ==> nodeKind(listElem(n, j)) == datamodel.Kind_List && nodeStr(listElem(listElem(n, j), 0)) == stmtKind(p[j]))
 //@ func (*Token).Encode
 //@   requires t != nil
 //@   ensures [C08,C18] bytes: result1 == nil ==> bytes(result0) == encodeWith(encFn, sealedNoded(t, privKey))
